@@ -304,6 +304,8 @@ def execute(case, ctx):
                 elif hasattr(it, 'close'):
                     it.close()
         except BaseException as e:
+            if type(e).__name__ in ('RunTimeout', 'RunTooBig'):
+                raise
             exc = e
         exp = op['expect']
         ctx.event(step, 'list_names', got, type(exc).__name__ if exc else None)
